@@ -207,6 +207,7 @@ type fnExec struct {
 	callCount map[string]int
 	loopEntry map[*Loop]*State
 	loopFrames map[*Loop]*loopFrame
+	loopHeadSt map[*Loop]*State
 }
 
 func shortPkg(fn *ssa.Function) string {
@@ -359,6 +360,14 @@ func (fx *fnExec) addEdge(from, to *ssa.BasicBlock, st *State, cond *Term) {
 		s2 := st.clone()
 		s2.Reach = cond
 		fx.checkInvariant(lp, s2, "preserve")
+		if spec := fx.loopSpec(lp); spec != nil {
+			for i, cl := range spec.Step {
+				env := fx.specEnv(s2, fx.entry, lp)
+				env.loopEntry = fx.loopEntry[lp]
+				env.iterSt = fx.loopHeadSt[lp]
+				fx.oblige(fmt.Sprintf("step.%d.%d", lp.Ordinal, i+1), "inv", s2, env.evalBool(cl), lp.Pos, cl.Src)
+			}
+		}
 		if lf := fx.loopFrames[lp]; lf != nil {
 			fx.checkLoopFrame(lp, lf, s2)
 		}
@@ -432,6 +441,10 @@ func (fx *fnExec) cutLoop(lp *Loop, spec *LoopSpec) {
 		t := env.evalBool(cl)
 		fx.ex.assume(st, t)
 	}
+	if fx.loopHeadSt == nil {
+		fx.loopHeadSt = map[*Loop]*State{}
+	}
+	fx.loopHeadSt[lp] = st.clone()
 	fx.cutting[lp] = true
 	fx.done[h] = true
 	fx.execBlock(h, st)
